@@ -204,7 +204,7 @@ def run_case(griffe, acc, case):
             size = sum(len(v) for v in files.values()) + (1 if resolve else 0)
             try:
                 loader = griffe.GriffeLoader(search_paths=sps, allow_inspection=(agent == "inspect"), force_inspection=(agent == "inspect" and container != "builtin"))
-                mod = loader.load(top, try_relative_path=False)
+                mod = loader.load(top, try_relative_path=False, find_stubs_package=container.startswith("stubs-package"))
                 if resolve:
                     loader.resolve_aliases(implicit=True, external=False)
             except Exception as e:  # noqa: BLE001
@@ -284,7 +284,7 @@ def run_case(griffe, acc, case):
 
                 for full in (False, True):
                     out = os.path.join(d, "out.json")
-                    args = ["dump", top, "-o", out, "-X"] + [x for sp in sps for x in ("-s", sp)] + (["-f"] if full else []) + (["-r", "-I", "--no-resolve-external"] if resolve else [])
+                    args = ["dump", top, "-o", out, "-X"] + (["--find-stubs-packages"] if container.startswith("stubs-package") else []) + [x for sp in sps for x in ("-s", sp)] + (["-f"] if full else []) + (["-r", "-I", "--no-resolve-external"] if resolve else [])
                     try:
                         rc = cli.main(args)
                         got = open(out).read()
